@@ -221,6 +221,23 @@ def fam_geometric_big(r, n):
             out.add(w + bytes([b]) + w[:2])
     return norm(out)
 
+def fam_tinydense(r, n):
+    # every string of length 1..k over 2-4 letters (tiny members whose whole encoding fits into a byte) next to random ones of up to 40 letters
+    a = bytes(range(ord("a"), ord("a") + r.choice([2, 3, 3, 4])))
+    out = set()
+    frontier = [b""]
+    while True:
+        nxt = [p + bytes([ch]) for p in frontier for ch in a]
+        if len(out) + len(nxt) > max(len(a), n // 2):
+            break
+        out.update(nxt)
+        frontier = nxt
+    tries = 0
+    while len(out) < n and tries < 20 * n:
+        out.add(bytes(r.choice(a) for _ in range(r.randint(1, 40))))
+        tries += 1
+    return norm(out)
+
 def fam_longcode(r, n):
     # ~160 KB of text over 10 letters whose frequencies double, plus a few bytes that occur once: together with the weight-1 entries the
     # Huffman / Hu-Tucker models give unused bytes, the rare symbols get codewords longer than the 16-bit decoding-table chunk, so
@@ -257,7 +274,7 @@ FAMILIES = {
     "words": fam_words, "urls": fam_urls, "numerals": fam_numerals, "chain": fam_chain, "near": fam_near,
     "len1": fam_len1, "samelen": fam_samelen, "vbyte": fam_vbyte, "longshort": fam_longshort, "long": fam_long,
     "repetitive": fam_repetitive, "copies": fam_copies, "extremes": fam_extremes, "norepeat": fam_norepeat,
-    "last_single": fam_last_single, "skewed": fam_skewed, "dense": fam_dense, "lcp128x": fam_lcp128x, "longcode": fam_longcode,
+    "last_single": fam_last_single, "skewed": fam_skewed, "dense": fam_dense, "lcp128x": fam_lcp128x, "longcode": fam_longcode, "tinydense": fam_tinydense,
 }
 
 def corner_corpus():
